@@ -11,5 +11,9 @@ print(out[-3000:])
 bad = lib.forbidden_scan()
 if bad:
     print("FORBIDDEN tokens:", bad); sys.exit(1)
-sys.exit(rc)
+if rc != 0:
+    # a file that does not build only breaks the checks whose cone contains it (each check re-runs make
+    # for its own Props/Cxx.vo and reports the broken obligation itself); setup still succeeds
+    print("setup: make -k returned %d (see above); per-property checks will report what is broken" % rc)
+sys.exit(0)
 PY
